@@ -472,7 +472,8 @@ def rules_from_tree(rng, tree, opts, depth=0):
         if rng.random() < opts["prio"]:
             params.append("%prio=" + str(rng.randint(1, 3)))
         if r < opts["ignore"]:
-            out.append(dict(row="!" + rr, params=[], children=[]))
+            # both spellings of the ignore mark: `!row` and `! row` (the shipped arista.rul / cisco.rul use the latter)
+            out.append(dict(row=("! " if rng.random() < 0.4 else "!") + rr, params=[], children=[]))
             continue
         if ch and r < opts["ignore"] + opts["allbelow"]:
             out.append(dict(row=rr, params=params, children=[dict(row="~", params=[rng.choice(["%global", "%global=1"])], children=[])]))
